@@ -345,6 +345,16 @@ def judge(ctx, r, dec, obs, prior, prefix, where):
     return set(prior) if ok else None
 
 
+def ndev(req, primary):
+    """in how many of the six fields a report request differs from the primary one"""
+    if req['kind'] != 'report':
+        return 0
+    n = sum(1 for f in ('method', 'week', 'config', 'x') if req[f] != primary[f])
+    n += (req['pform'], req['programs']) != (primary['pform'], primary['programs'])
+    n += (req['lenc'], req['pad']) != (primary['lenc'], primary['pad'])
+    return n
+
+
 def sig5(cls):
     """5xx signatures: one class for every report that carries a null program"""
     return 'programs-null-element' if 'programs-null-element' in cls else cls
@@ -746,6 +756,7 @@ def run(ctx):
     with open(os.path.join(r.dir, 'serverinit.json')) as f:
         inits = json.load(f)
     cfgjson = config_json(mcfg)
+    primary = inits['prepop'][0]
     nvec, nmatch, ndistinct = 0, 0, 0
     by_dec = {'store': 0, 'reject': 0, 'either': 0}
     chunk = []
@@ -754,7 +765,8 @@ def run(ctx):
         nonlocal nvec, nmatch
         behs, meta = [], []
         for (req, dec) in chunk:
-            for b0 in ('empty', 'prepop'):
+            # requests that deviate in 3 fields (thorough tier only) run on the empty bucket only
+            for b0 in (('empty', 'prepop') if ndev(req, primary) <= 2 else ('empty',)):
                 pre = inits[b0]
                 steps = [concretize(p, i) for i, p in enumerate(pre)] + [concretize(req, len(behs))]
                 behs.append({'id': len(behs), 'steps': steps})
@@ -802,7 +814,7 @@ def run(ctx):
             chunk = []
     if chunk:
         flush(chunk)
-    ctx.log('vectors: %d requests x 2 buckets, %d matched; decisions %s' % (ndistinct, nmatch, by_dec))
+    ctx.log('vectors: %d requests, %d replays (empty / pre-populated bucket), %d matched; decisions %s' % (ndistinct, nvec, nmatch, by_dec))
     ctx.cov['vectors_replayed'] = nvec
     ctx.cov['vector_decisions'] = by_dec
     ctx.cov['request_classes'] = len(seen)
@@ -812,7 +824,7 @@ def run(ctx):
         raise Infra('vector set is degenerate: %s' % by_dec)
 
     # ---- 3. model -> code: histories (simulate walks) -------------------------
-    nwalk = ctx.pick(60, 600)
+    nwalk = ctx.pick(60, 400)
     r = ctx.tlc('ServerReqSim', simulate={'num': nwalk, 'file': True}, depth=ctx.pick(25, 40), label='ServerReqSim', count=False, timeout=3000)
     if r.error:
         raise Infra('Server simulate: %s\n%s' % (r.error, r.out[-2000:]))
@@ -865,8 +877,8 @@ def run(ctx):
 
     # ---- 4. code -> model: random requests validated by TLC -------------------
     g = Gen(ctx.seed * 1000003 + 12, mcfg)
-    nh = ctx.pick(40, 400)
-    hl = ctx.pick(50, 80)
+    nh = ctx.pick(40, 300)
+    hl = ctx.pick(50, 70)
     behs, absts = [], []
     for h in range(nh):
         steps, ab = [], []
@@ -925,7 +937,7 @@ def run(ctx):
         h, i, a, o, stp = [x for x in origin if x and x[3].get('status') == 200][0]
         ctx.sample({'kind': 'observation', 'text': a.get('_text'), 'method': a['method'], 'status': o.get('status'), 'created': o.get('created')})
     ctx.cov['rule'] = ('vectors = every request deviating from a valid primary request in <= %d of {method, week, config, X, programs, size} plus every '
-                       'garbage body class, each on an empty and on a pre-populated bucket; histories = TLC -simulate walks of Server.tla; random = '
+                       'garbage body class, each on an empty and (for <= 2 deviations) on a pre-populated bucket; histories = TLC -simulate walks of Server.tla; random = '
                        'seeded random reports/garbage abstracted by independent tokenizers and decided by TLC (ServerTrace); distinct = distinct '
                        'request vectors + histories' % K)
     ctx.cov['distinct_nontrivial'] = ndistinct + len(meta) + nh
